@@ -206,7 +206,33 @@ type facts struct {
 	js   map[string]interface{}
 }
 
-func leanStr(s string) string { return strconv.Quote(s) }
+// leanStr renders s as a Lean string literal (Lean knows \n \t \r \\ \" \xHH \uHHHH; not Go's \a \b \f \v \U).
+func leanStr(s string) string {
+	var b strings.Builder
+	b.WriteByte('"')
+	for _, r := range s {
+		switch {
+		case r == '"':
+			b.WriteString("\\\"")
+		case r == '\\':
+			b.WriteString("\\\\")
+		case r == '\n':
+			b.WriteString("\\n")
+		case r == '\t':
+			b.WriteString("\\t")
+		case r == '\r':
+			b.WriteString("\\r")
+		case r < 0x20 || r == 0x7f:
+			fmt.Fprintf(&b, "\\x%02x", r)
+		case r == 0xFFFD:
+			b.WriteString("\\uFFFD")
+		default:
+			b.WriteRune(r)
+		}
+	}
+	b.WriteByte('"')
+	return b.String()
+}
 
 func (f *facts) defInt(name string, v int64, ok bool) {
 	f.js[name] = v
